@@ -871,14 +871,11 @@ Definition lowprio_blocked (c : cfg) (g : gst) (l : lstate) : Prop :=
 
 (* no call blocks for ever, except (1) a pool-suspend that waits for the pool to drain while work remains and
    (2) the low-priority finding *)
-Lemma suspend_resume_return : forall c progs sched, (forall t, Forall (api_ok c) (progs t)) ->
-  let cf := sr_run c progs sched in
-  stuck c cf ->
-  forall t, client_done (snd cf t) = true \/ (at_wait_idle (snd cf t) = true /\ live (fst cf) > 0) \/
-            lowprio_blocked c (fst cf) (snd cf t).
+(* stated for ANY state satisfying the hand-shake / lock invariant (reused by the high-priority layer, round p12a) *)
+Lemma stuck_return_gen : forall c g (ls : locals lstate), INV4 c g ls -> stuck c (g, ls) ->
+  forall t, client_done (ls t) = true \/ (at_wait_idle (ls t) = true /\ live g > 0) \/ lowprio_blocked c g (ls t).
 Proof.
-  intros c progs sched Hok cf S t. pose proof (sr_inv4 c progs sched Hok) as I. fold cf in I.
-  destruct cf as [g ls]. cbn [fst snd] in *.
+  intros c g ls I S t.
   destruct (ls t) as [pc|cl|] eqn:L; [left; reflexivity| |left; reflexivity].
   destruct (stuck_client c g ls t cl I S L) as [Ge Dis].
   pose proof (i_prog c g ls I t cl L) as Pok.
@@ -911,6 +908,16 @@ Proof.
     destruct (i_hs c g ls I w pc Lw Pp) as [A _]. change g_res_wait with rs_sleeping in D1. rewrite D1 in A.
     destruct pc; cbn in A, D; try discriminate. rewrite D2 in D. discriminate.
   - (* PWaitIdle *) right. left. split; [reflexivity|]. destruct (live g); [discriminate|lia].
+Qed.
+
+Lemma suspend_resume_return : forall c progs sched, (forall t, Forall (api_ok c) (progs t)) ->
+  let cf := sr_run c progs sched in
+  stuck c cf ->
+  forall t, client_done (snd cf t) = true \/ (at_wait_idle (snd cf t) = true /\ live (fst cf) > 0) \/
+            lowprio_blocked c (fst cf) (snd cf t).
+Proof.
+  intros c progs sched Hok cf S t. pose proof (sr_inv4 c progs sched Hok) as I. fold cf in I.
+  destruct cf as [g ls]. cbn [fst snd] in *. exact (stuck_return_gen c g ls I S t).
 Qed.
 
 Lemma suspend_resume_return_guarded : forall c progs sched, (forall t, Forall (api_ok c) (progs t)) ->
